@@ -30,7 +30,10 @@ for patch in sys.argv[1:]:
             for f in ctx.floors:
                 if f[1] < f[2]:
                     inc.append((p, f"floor {f[0]} {f[1]}<{f[2]} {f[3]}"))
-        tag = "FALSE-ALARM" if bad else ("inconclusive" if inc else "silent")
+        # editing the construct of a recorded finding re-reports that finding: it violates the property before and after
+        restated = [b for b in bad if b[3].startswith("[the construct of a recorded finding has been edited")]
+        bad = [b for b in bad if b not in restated]
+        tag = "FALSE-ALARM" if bad else ("inconclusive" if inc else ("silent (re-states a recorded finding)" if restated else "silent"))
         print(f"{patch}: {tag}")
         seen = set()
         for b in bad:
